@@ -23,6 +23,7 @@ def run(ctx):
         workloads.random_history(ctx, srv, workloads.CollsGen(ctx.rnd), n=1500 if ctx.quick else 5000, label='rand%d' % i)
     ctx.extra_cov['set_algebra_cases'] = workloads.set_algebra_history(ctx, srv)
     ctx.extra_cov['list_shape_cases'] = workloads.list_shape_history(ctx, srv)
+    ctx.extra_cov['lifecycle_cases'] = workloads.lifecycle_history(ctx, srv)
     # integer positions written in spellings the reference refuses ('+5', '007', '-0'): open finding lenient_int
     workloads.lenient_int_history(ctx, srv, 'colls')
     ctx.extra_cov['distinct_cases'] = len(paths) + n_hist
